@@ -73,7 +73,7 @@ def _root(a):
 def cases_requests(tier):
     quick = tier == "quick"
     for kind in ("functions", "both", "functions-then-gradients"):
-        for (R, P, N, B) in ((2, 1, 1, 1), (2, 2, 2, 1), (3, 2, 1, 1)) + (() if quick else ((1, 1, 1, 1), (3, 1, 2, 1), (2, 3, 2, 1), (4, 2, 2, 1), (3, 3, 2, 1), (2, 2, 3, 1))):
+        for (R, P, N, B) in ((2, 1, 1, 1), (2, 2, 2, 1), (3, 2, 1, 1), (2, 3, 1, 1)) + (() if quick else ((1, 1, 1, 1), (3, 1, 2, 1), (2, 3, 2, 1), (4, 2, 2, 1), (3, 3, 2, 1), (2, 2, 3, 1))):
             for tr in (False, True):
                 for K in (0, 1):
                     yield "%s/R%dP%dN%dK%d/%s" % (kind, R, P, N, K, "transform" if tr else "plain"), {"kind": kind, "R": R, "P": P, "N": N, "B": B, "K": K, "tr": tr}
@@ -117,7 +117,7 @@ def scn_requests(T, case):
             return nanrow
         return tabC[b, r, 0 if p is None or p < 0 else p + 1]
 
-    infos = []
+    infos, info_objects = [], []
 
     class Ev(H.ScriptedEvaluator):
         def __call__(self, variables, context):
@@ -129,6 +129,7 @@ def scn_requests(T, case):
             tag.setflags(write=False)  # ... handed out as a read-only view (the buffer itself is reused by the evaluator)
             res.evaluation_info = {"tag": tag}
             infos.append((buf, buf.copy()))
+            info_objects.append((res, res.evaluation_info, tag))
             return res
 
     cfg = H.make_config(T, R, J, K, N, weights=w, ow=T.const(np.array([1.0])), P=P, min_success=1, pert_min_success=1, magnitudes=T.const(np.ones(N)))
@@ -204,6 +205,10 @@ def scn_requests(T, case):
         T.prove(PFX + ".frame.evaluator_result_object_not_assigned", res_obj.objectives is objs and res_obj.constraints is cons)
         T.prove(PFX + ".frame.evaluator_arrays_not_written", T.same(objs, objs0) & (T.same(cons, cons0) if cons is not None else True))
         roots += [id(_root(objs))] + ([id(_root(cons))] if cons is not None else [])
+    for res_obj, info_dict, tag_view in info_objects:
+        # ... including the dictionary of per-evaluation information the evaluator handed over: same dict, same keys, same arrays
+        T.prove(PFX + ".frame.evaluator_info_dictionary_not_modified", res_obj.evaluation_info is info_dict and list(info_dict) == ["tag"] and info_dict["tag"] is tag_view
+                and tuple(tag_view.shape) == (len(tag_view),))
     for tag, tag0 in infos:
         T.prove(PFX + ".frame.evaluator_arrays_not_written", bool(np.array_equal(tag, tag0)), "evaluation_info")
         roots.append(id(_root(tag)))
